@@ -18,7 +18,9 @@ EXPLANATION = (
     "first index of every key seen more than once, brief mode compares Reaction(reactants, products) (multiplicity kept), string modes format each "
     "reaction with names in a total (name) order -- and, whatever the shape of the table, no entry is overwritten for a key already present; "
     "R4 remove_reaction(list[int]) keeps exactly the positions not listed, and callers that remove duplicates pass the position list; R5 the "
-    "comparison methods (Reaction.__eq__/__hash__/__format__, Species.__eq__/__hash__/__lt__) write nothing into the instance and are not memoised.")
+    "comparison methods (Reaction.__eq__/__hash__/__format__, Species.__eq__/__hash__/__lt__) write nothing into the instance and are not memoised; "
+    "R7 Species.__lt__ (the order sorted() lists the formatted names in) compares a key that contains the name itself on both sides, so that two species "
+    "with different names never tie and permuted reactants / products format identically.")
 ASSUMPTIONS = [
     "the result on a given list and transitivity effects of the UNKNOWN wildcard in Reaction.__eq__ are not decided",
     "equal species names were parsed with equal prefix/symbol arguments",
@@ -38,6 +40,7 @@ def check(ctx):
     _r4(ctx, pkg)
     _r4_callers(ctx, pkg)
     _r5(ctx, pkg)
+    _r7(ctx, pkg)
     # the duplicate report is computed from the reactions the network holds NOW: no memo of comparison keys survives an edit
     # (shared with C14.R6, which covers every method of Network that keeps a memo of its own)
     from .c14 import _r6 as live_views
@@ -53,15 +56,6 @@ def _r1(ctx, pkg):
     def res(name):
         return pkg.resolve("Reaction", name)[1]
     # what the methods read, looking through predicate / key helpers of the class they call
-    reads = attrs_read_deep(hf, res)
-    compared = attrs_read_deep(ef, res) | attrs_read_deep(rp, res)
-    extra = sorted(reads - compared)
-    ctx.check(not extra, "R1", "Reaction.__hash__:reads", (RF, hf.lineno),
-              "the hash reads only what __eq__/rpeq compare" if not extra else f"the hash reads {extra}, which equality ignores: equal reactions get different hashes",
-              expected=f"subset of {sorted(compared)}", found=str(sorted(reads)))
-    ctx.check({"reactants", "products"} <= reads, "R1", "Reaction.__hash__:covers both sides", (RF, hf.lineno), "reactants and products both enter the hash")
-    # rpeq itself: the two sides are compared as multisets under Species equality (Counter), or through a canonical order
-    # whose key equal species share -- a name order does not (e- / E, #CO / GCO sort apart and misalign the lists)
     def pieces(fn):
         """the method and the helper methods of the class it calls on self (transitively): one body split in pieces"""
         out, todo = [fn], [fn]
@@ -74,6 +68,45 @@ def _r1(ctx, pkg):
                         out.append(h)
                         todo.append(h)
         return out
+    reads = attrs_read_deep(hf, res)
+    compared = attrs_read_deep(ef, res) | attrs_read_deep(rp, res)
+    extra = sorted(reads - compared)
+
+    def opaque(*fns):
+        """calls through which a method may read attributes this rule does not see: a function that is neither a builtin of the
+        list below nor a helper method of the class (followed by attrs_read_deep), or getattr with a computed name"""
+        KNOWN = {"hash", "tuple", "frozenset", "Counter", "sorted", "list", "set", "len", "sum", "str", "repr", "isinstance", "type", "all", "any", "zip",
+                 "map", "iter", "next", "min", "max", "bool", "int", "float", "enumerate", "reversed", "dict", "super", "id", "print", "NotImplemented"}
+        out = []
+        for fn in fns:
+            for part in pieces(fn):
+                raised = {id(c) for r in ast.walk(part) if isinstance(r, ast.Raise) for c in ast.walk(r)}
+                for c in ast.walk(part):
+                    if not isinstance(c, ast.Call) or id(c) in raised:
+                        continue
+                    f = c.func
+                    if isinstance(f, ast.Name) and f.id in KNOWN:
+                        continue
+                    root = f
+                    while isinstance(root, (ast.Attribute, ast.Subscript, ast.Call)):
+                        root = root.value if not isinstance(root, ast.Call) else root.func
+                    imported = isinstance(root, ast.Name) and root.id in pkg.imports.get(RF, {}) and root.id not in KNOWN
+                    if isinstance(f, ast.Attribute) and not imported and not (isinstance(f.value, ast.Name) and f.value.id == "self" and res(f.attr) is None and f.attr not in ("rpeq",)):
+                        continue        # a method of some value (x.items()), or a helper of the class that was followed
+                    out.append(ast.unparse(f)[:40])
+        return sorted(set(out))
+    if extra and opaque(ef, rp):
+        ctx.unrec("R1", "Reaction.__hash__:reads", (RF, hf.lineno), f"the hash reads {extra}; whether equality compares them is hidden behind {opaque(ef, rp)}")
+    else:
+        ctx.check(not extra, "R1", "Reaction.__hash__:reads", (RF, hf.lineno),
+                  "the hash reads only what __eq__/rpeq compare" if not extra else f"the hash reads {extra}, which equality ignores: equal reactions get different hashes",
+                  expected=f"subset of {sorted(compared)}", found=str(sorted(reads)))
+    if not {"reactants", "products"} <= reads and opaque(hf):
+        ctx.unrec("R1", "Reaction.__hash__:covers both sides", (RF, hf.lineno), f"what the hash reads is hidden behind {opaque(hf)}")
+    else:
+        ctx.check({"reactants", "products"} <= reads, "R1", "Reaction.__hash__:covers both sides", (RF, hf.lineno), "reactants and products both enter the hash")
+    # rpeq itself: the two sides are compared as multisets under Species equality (Counter), or through a canonical order
+    # whose key equal species share -- a name order does not (e- / E, #CO / GCO sort apart and misalign the lists)
     rsorts = [c for part in pieces(rp) for c in ast.walk(part) if isinstance(c, ast.Call) and ast.unparse(c.func) == "sorted"]
     rsrc = ast.unparse(rp)
     EXP = "Counter(self.reactants) == Counter(o.reactants) and Counter(self.products) == Counter(o.products)"
@@ -106,7 +139,7 @@ def _r1(ctx, pkg):
             if lits is None:
                 # a disjunction: some way of being "equal" does not compare both sides
                 sides = [{a for a in ("reactants", "products") if any(a in ast.unparse(x) for x in c)} for c in conj]
-                if all(s_ == {"reactants", "products"} for s_ in sides):
+                if all(s_ == {"reactants", "products"} for s_ in sides) or opaque(rp):
                     ctx.unrec("R1", K, (RF, rp.lineno), f"rpeq is a disjunction this rule does not read: {found}")
                 else:
                     ctx.bad("R1", K, (RF, rp.lineno), "rpeq holds in a case that does not compare both the reactants and the products", expected=EXP, found=found)
@@ -117,9 +150,13 @@ def _r1(ctx, pkg):
                 else:
                     # positive evidence: the side is compared, but not as a multiset (set / frozenset / list / tuple / len ...), or is
                     # not compared at all in a conjunction that is otherwise understood
+                    # (every literal of the conjunction must be understood -- `self.X == o.X` over attribute reads and builtin
+                    # containers; a call of anything else may well be the comparison that seems to be missing)
                     bad_side = [a for a in ("reactants", "products") if ("eq", f"Counter({a})") not in lits]
-                    opaque = [l for l in lits if l[0] != "eq" and any(a in l[-1] for a in bad_side)]
-                    if opaque:
+                    CONT = {"Counter", "set", "frozenset", "sorted", "list", "tuple", "len", "sum", "str"}
+                    unread = [l for l in lits if l[0] != "eq" or any(isinstance(c, ast.Call) and not (isinstance(c.func, ast.Name) and c.func.id in CONT)
+                                                                     for c in ast.walk(ast.parse(l[1], mode="eval")))]
+                    if unread or opaque(rp):
                         ctx.unrec("R1", K, (RF, rp.lineno), f"comparison of {bad_side} not recognised: {found}")
                     else:
                         ctx.bad("R1", K, (RF, rp.lineno), "both sides are compared as Counters (multisets under Species equality and hash)", expected=EXP, found=found)
@@ -128,9 +165,12 @@ def _r1(ctx, pkg):
     if not sorts:
         src = "\n".join(ast.unparse(part) for part in pieces(hf))
         multiset = "Counter(" in src or "frozenset" in src
-        ctx.check(multiset, "R1", "Reaction.__hash__:order-free", (RF, hf.lineno),
-                  "the hash is built from order-free multisets of species (consistent with rpeq's Counter comparison)" if multiset else
-                  "the hash depends on the order of reactants/products", found=src[-120:])
+        if not multiset and opaque(hf):
+            ctx.unrec("R1", "Reaction.__hash__:order-free", (RF, hf.lineno), f"how the hash combines the species is hidden behind {opaque(hf)}")
+        else:
+          ctx.check(multiset, "R1", "Reaction.__hash__:order-free", (RF, hf.lineno),
+                    "the hash is built from order-free multisets of species (consistent with rpeq's Counter comparison)" if multiset else
+                    "the hash depends on the order of reactants/products", found=src[-120:])
         # multiplicity must be kept: a plain frozenset of species loses it but is still consistent (coarser); accept
     else:
         lt = pkg.method("Species", "__lt__")
@@ -368,7 +408,19 @@ def _r3(ctx, pkg):
     it = simp(lp.iter) if lp else None
     chk = it[2][0] if it and it[0] == "call" and it[1] == ("global", "enumerate") and len(it[2]) == 1 else ("const", None)
     ok_loop = lp is not None and it == ("call", ("global", "enumerate"), (chk,), ())
-    ctx.check(ok_loop, "R3", "loop", (NF, lp.line if lp else fn.lineno), "every entry of the check list is visited once, in order, with its index", found=show(it)[:100] if it else "")
+    if ok_loop:
+        ctx.ok("R3", "loop", (NF, lp.line), "every entry of the check list is visited once, in order, with its index")
+    else:
+        # understood and wrong: enumerate over a slice / reversed view of the list, or counting from another start; anything else
+        # (zip with a range, a generator helper, two nested loops) is a spelling this rule does not read
+        inner = it[2][0] if it and it[0] == "call" and it[1] == ("global", "enumerate") and it[2] else None
+        wrong = inner is not None and ((len(it[2]) == 2 and it[2][1] != ("const", 0)) or any(k == "start" and v != ("const", 0) for k, v in it[3])
+                                      or (inner[0] == "sub" and inner[2][0] == "slice") or (inner[0] == "call" and inner[1] == ("global", "reversed")))
+        if wrong:
+            ctx.bad("R3", "loop", (NF, lp.line), "every entry of the check list is visited once, in order, with its index", found=show(it)[:100])
+        else:
+            ctx.unrec("R3", "loop", (NF, lp.line if lp else fn.lineno), f"the scan is not a loop over enumerate(<check list>): {show(it)[:100] if it else 'no single loop around the store'}")
+            return
     ctx.check(cguards(st) == [(SEENK, False)], "R3", "store only when unseen", (NF, st.line),
               "a key enters `seen` exactly when it was not there", expected="if chk not in seen: seen[chk] = [idx]", found="; ".join(show(g)[:60] for g, _ in cguards(st)))
     idx = ("idx", chk, lp.id) if lp else None
@@ -400,17 +452,23 @@ def _r3(ctx, pkg):
                 P_first = projection(body_[2], idxes)
                 t = norm_guard((ifs_[0], True))
                 b_ = match(("cmp", (V("op"),), (V("y"), ("const", V("n")))), t[0])
-                if b_ and isinstance(b_["n"], int):
+                if t[0] in (idxes, ("call", ("global", "len"), (idxes,), ())):
+                    # truthiness of the entry / of its size: "at least one occurrence" (every entry), or -- negated -- none
+                    P_count, thr_ok = ("len",), False
+                elif b_ and isinstance(b_["n"], int):
                     P_count = projection(b_["y"], idxes)
                     op_, n_ = b_["op"], b_["n"]
                     # count > 1  in any of its spellings
-                    thr_ok = (t[1] and ((op_ == "Gt" and n_ == 1) or (op_ == "GtE" and n_ == 2))) or (not t[1] and ((op_ == "LtE" and n_ == 1) or (op_ == "Lt" and n_ == 2)))
+                    # (a count is at least 1: `!= 1` says the same)
+                    thr_ok = (t[1] and ((op_ == "Gt" and n_ == 1) or (op_ == "GtE" and n_ == 2))) or (not t[1] and ((op_ == "LtE" and n_ == 1) or (op_ == "Lt" and n_ == 2) or (op_ == "Eq" and n_ == 1)))
                 shape = bool(P_first) and bool(P_count)
     WF = (NF, rets[0].line if rets else fn.lineno)
     EXPF = "[reactions[idxes[0]] for _, idxes in seen.items() if len(idxes) > 1]"
     if not shape:
-        if c is not None and c[0] == "comp" and any(x == ACC_SEEN for x in walk(c)) and any(x == RL for x in walk(c)):
-            # a selection from the table that is not `reactions[<first position of the entry>] if <size of the entry> > 1`
+        nofilter = c is not None and c[0] == "comp" and len(c[3]) == 1 and not c[3][0][2] and c[3][0][1][0] == "meth" and c[3][0][1][1] == ACC_SEEN \
+            and c[3][0][1][2] in ("items", "values") and c[2][0] == "sub" and c[2][1] == RL
+        if nofilter:
+            # understood and wrong: one reaction per key of the table, repeated or not
             ctx.bad("R3", "first", WF, "`first` = reactions[idxes[0]] for every key seen more than once, in insertion order", expected=EXPF, found=show(c)[:140])
         else:
             ctx.unrec("R3", "first", WF, f"the list of first occurrences is not a selection from the first-seen table: {show(c)[:120] if c else 'no 3-tuple returned'}")
@@ -424,6 +482,9 @@ def _r3(ctx, pkg):
                 fields.setdefault(("attr", f_), fields[("sub", i_)])
     if fields is None:
         ctx.unrec("R3", "stored list non-empty", (NF, st.line), f"the entry created for a new key is not a display / record constructor this rule reads: {show(simp(st.value))[:80]}")
+        return
+    if P_first not in fields or P_count not in fields:
+        ctx.unrec("R3", "stored list non-empty", (NF, st.line), f"the entry created for a new key has no projection {P_first if P_first not in fields else P_count}: {show(simp(st.value))[:80]}")
         return
     ctx.check(fields.get(P_first) == idx and fields.get(P_count) == ONE, "R3", "stored list non-empty", (NF, st.line),
               "a new entry records the current position as the first one and counts one occurrence ([idx], or a record (idx, 1))",
@@ -455,6 +516,15 @@ def _r3(ctx, pkg):
             taut = False
             why = show(x)[:80]
         role = "dupes" if f.target == DUPES else "dupidx"
+        # positive evidence: the report sits in the not-seen arm / outside any test of the table, or the extra guard is a test of
+        # the entry's size this rule evaluates (len(entry) > 1 ..); any other extra guard is not read
+        sized = [x for x, p in extra if match(("cmp", (V("op"),), (V("y"), ("const", V("n")))), x) and projection(match(("cmp", (V("op"),), (V("y"), ("const", V("n")))), x)["y"], ENTRY) == P_count]
+        if not (bool(base_ok) and taut) and base_ok and not sized:
+            ctx.unrec("R3", f"report:{role}", (NF, f.line), f"the report is additionally guarded by `{why}`, which this rule does not evaluate")
+            continue
+        if not base_ok and any(about_table(x) and x != SEENK for x, _ in g):
+            ctx.unrec("R3", f"report:{role}", (NF, f.line), "the report is guarded by a test of the table this rule does not read: " + "; ".join(show(x)[:50] for x, _ in g))
+            continue
         ctx.check(bool(base_ok) and taut, "R3", f"report:{role}", (NF, f.line),
                   "a reaction is reported iff its key was seen before" if base_ok and taut else
                   f"the report is additionally guarded by `{why}`, which is not always true in the seen arm: the second member of a repeated class is not reported",
@@ -462,8 +532,16 @@ def _r3(ctx, pkg):
     i = [f for f in reports if f.target == DUPIDX][0]
     if derived is None:
         d = [f for f in reports if f.target == DUPES][0]
-        ctx.check(simp(i.value) == idx and simp(d.value) == ("sub", RL, idx), "R3", "report values", (NF, d.line),
-                  "the reported pair is (reactions[idx], idx) of the current entry", found=f"{show(simp(d.value))[:60]} / {show(simp(i.value))[:40]}")
+        iv, dv = simp(i.value), simp(d.value)
+        okv = iv == idx and dv == ("sub", RL, idx)
+        # understood and wrong: another position (arithmetic on the counter, a constant, the entry's first position), or an element of
+        # another list at the counter; anything else (an element handed over by zip, a helper) is not read
+        wrong_i = iv != idx and (iv[0] in ("const", "binop", "sub") or entry_of(iv) is not None)
+        wrong_d = dv[0] == "sub" and (dv[1] != RL or dv[2] != idx) and (dv[1] == RL or dv[2] == idx)
+        if okv or wrong_i or wrong_d:
+            ctx.check(okv, "R3", "report values", (NF, d.line), "the reported pair is (reactions[idx], idx) of the current entry", found=f"{show(dv)[:60]} / {show(iv)[:40]}")
+        else:
+            ctx.unrec("R3", "report values", (NF, d.line), f"the reported pair is not read as (reactions[idx], idx): {show(dv)[:60]} / {show(iv)[:40]}")
     else:
         # the reported reactions are read off the reported positions after the loop
         m = as_map(derived)
@@ -473,6 +551,9 @@ def _r3(ctx, pkg):
             ctx.check(simp(i.value) == idx and m[1] == ("sub", RL, m[0]) and not m[3], "R3", "report values", (NF, i.line),
                       "the reported pair is (reactions[idx], idx) of the current entry", found=f"{show(derived)[:60]} / {show(simp(i.value))[:40]}")
     # the count grows by exactly one at every later occurrence: one increment, in the seen arm, unconditionally
+    if len(cnt) != 1:
+        ctx.unrec("R3", "seen arm appends index", (NF, cnt[0][4].line), f"the count of an entry is changed at {len(cnt)} places: which runs when is not decided")
+        return
     gk, _, gkind, gv, g = cnt[0]
     gg = cguards(g)
     ok_g = len(cnt) == 1 and gkind == "inc" and gg == [(SEENK, True)] and gk == key and (P_count != ("len",) or gv == idx)
@@ -485,17 +566,35 @@ def _r3(ctx, pkg):
     if chk[0] in ("phi", "ifexp") and all(v is not None for v in leaves.values()):
         brief = leaves["brief"]
         m = as_map(brief)
-        ok_b = bool(m) and m[2] == RL and not m[3] and m[1] == ("call", ("global", "Reaction"), (("attr", m[0], "reactants"), ("attr", m[0], "products")), ())
-        ctx.check(ok_b, "R3", "mode brief", (NF, fn.lineno),
-                  "brief mode compares Reaction(reactants, products): the multisets of species, nothing else" if ok_b else
-                  "brief mode does not compare the reactant/product lists themselves (multiplicity or order information is lost or added)",
-                  expected="[Reaction(re.reactants, re.products) for re in reactions]", found=show(brief)[:120])
+
+        def sides_call(c):
+            """Reaction(x.reactants, x.products) in any argument spelling -> the two arguments by role, else None"""
+            if c[0] != "call" or c[1] != ("global", "Reaction"):
+                return None
+            kw = dict(c[3])
+            a = list(c[2]) + [kw[k] for k in ("reactants", "products")[len(c[2]):] if k in kw]
+            return tuple(a) if len(a) == 2 and len(c[2]) + len(kw) == 2 else None
+        ok_b = bool(m) and m[2] == RL and not m[3] and sides_call(m[1]) == (("attr", m[0], "reactants"), ("attr", m[0], "products"))
+        if not ok_b and not (m and m[2] == RL and not any(x[0] in ("call", "meth") and x[1] != ("global", "Reaction") and x[1] not in (("global", "frozenset"), ("global", "set"), ("global", "tuple"), ("global", "sorted"), ("global", "list"), ("global", "Counter"))
+                                                           for x in walk(m[1]) if isinstance(x, tuple) and x and x[0] in ("call", "meth"))):
+            # not a map over the reactions built from builtin containers of their attributes: a spelling this rule does not read
+            ctx.unrec("R3", "mode brief", (NF, fn.lineno), f"the keys compared in brief mode are not read: {show(brief)[:120]}")
+        else:
+          ctx.check(ok_b, "R3", "mode brief", (NF, fn.lineno),
+                    "brief mode compares Reaction(reactants, products): the multisets of species, nothing else" if ok_b else
+                    "brief mode does not compare the reactant/product lists themselves (multiplicity or order information is lost or added)",
+                    expected="[Reaction(re.reactants, re.products) for re in reactions]", found=show(brief)[:120])
         ok_s = leaves["none"] == RL
         if ok_s:
             m2 = as_map(leaves["text"])
             ok_s = bool(m2) and m2[2] == RL and not m2[3] and m2[1][0] == "fstr" and len(m2[1][1]) == 1 and m2[1][1][0][0] == "fmt" and m2[1][1][0][1] == m2[0]
-        ctx.check(bool(ok_s), "R3", "mode string/default", (NF, fn.lineno), "string modes compare f'{react:{mode}}' of every reaction; the default compares the reactions themselves",
-                  found=f"{show(leaves['text'])[:100]} / {show(leaves['none'])[:40]}")
+        m3 = as_map(leaves["text"])
+        read = leaves["none"][0] in ("attr", "comp", "list", "call") and bool(m3) and m3[2] == RL and m3[1][0] in ("fstr", "attr", "const", "tuple")
+        if ok_s or read:
+            ctx.check(bool(ok_s), "R3", "mode string/default", (NF, fn.lineno), "string modes compare f'{react:{mode}}' of every reaction; the default compares the reactions themselves",
+                      found=f"{show(leaves['text'])[:100]} / {show(leaves['none'])[:40]}")
+        else:
+            ctx.unrec("R3", "mode string/default", (NF, fn.lineno), f"the keys compared in the string / default modes are not read: {show(leaves['text'])[:100]} / {show(leaves['none'])[:40]}")
     else:
         ctx.unrec("R3", "check_list", W, f"mode dispatch not recognised: {show(chk)[:100]}")
     # the formatted names are in a total order (by name)
@@ -517,6 +616,28 @@ def _r3(ctx, pkg):
             if not ok and v[0] == "call" and v[1] == ("global", "sorted") and not v[3]:
                 m = as_map(v[2][0])
                 ok = bool(m) and m[1] == ("attr", m[0], "name") and m[2] == ("attr", SELF, attr)
+            if not ok:
+                # sorted(.., key=lambda s: s.name) is the same total order, spelled out
+                def by_name(c):
+                    if c[0] != "call" or c[1] != ("global", "sorted") or len(c[2]) != 1 or c[2][0] != ("attr", SELF, attr):
+                        return False
+                    kw = dict(c[3])
+                    k = kw.get("key")
+                    return set(kw) <= {"key"} and k is not None and k[0] == "lambda" and len(k[1]) == 1 and k[2] == ("attr", k[1][0], "name")
+                m = as_map(v)
+                ok = bool(m) and m[1] == ("attr", m[0], "name") and not m[3] and by_name(m[2])
+        # understood and wrong: the names listed in input order (no sort at all), or sorted by an explicit key other than the name;
+        # names produced by a helper / another construction are not read
+        understood = ok
+        if a and not ok:
+            v = simp(a[0][0])
+            m = as_map(v)
+            nosort = bool(m) and m[2] == ("attr", SELF, attr) and m[1] == ("attr", m[0], "name")
+            keyed = any(isinstance(x, tuple) and len(x) == 4 and x[0] == "call" and x[1] == ("global", "sorted") and any(k == "key" for k, _ in x[3]) for x in walk(v))
+            understood = nosort or keyed
+        if not understood:
+            ctx.unrec("R3", f"__format__:{nm} order", (RF, a[0][3] if a else ff.lineno), f"how the printed {attr} are ordered is not read: {found or 'no local built from self.' + attr}")
+            continue
         ctx.check(ok, "R3", f"__format__:{nm} order", (RF, a[0][3] if a else ff.lineno),
                   f"formatted {attr} are listed in name order (a total order on the printed tokens, so permutations format identically)" if ok else
                   f"the {attr} are not sorted by the printed name itself: two species that tie under the sort key keep their input order and permuted duplicates format differently",
@@ -530,6 +651,34 @@ def _flat_cases(v, conds=()):
     return [(conds, v)]
 
 
+def _pred_cases(v):
+    """[(conditions, leaf)] of a list value: the arms of a phi / ifexp tree, and -- for a comprehension filtered by a predicate that was
+    itself CHOSEN by a chain of tests (`keep = <lambda per argument type>; [.. if keep(i, r)]`) -- one comprehension per predicate,
+    with the chosen predicate's body as the filter; an arm of the chain that raises builds no list"""
+    out = []
+    for conds, leaf in _flat_cases(v):
+        if leaf[0] == "comp" and len(leaf[3]) == 1:
+            tg, it, ifs = leaf[3][0]
+            calls = [c for c in ifs if c[0] == "call" and c[1][0] in ("phi", "ifexp") and not c[3]]
+            if len(calls) == 1:
+                c = calls[0]
+                done = True
+                sub = []
+                for conds2, fv in _flat_cases(c[1]):
+                    if fv[0] == "raise":
+                        continue
+                    if fv[0] != "lambda" or len(fv[1]) != len(c[2]):
+                        done = False
+                        break
+                    test = simp(subst(fv[2], dict(zip(fv[1], c[2]))))
+                    sub.append((conds + conds2, ("comp", leaf[1], leaf[2], ((tg, it, tuple(test if x is c else x for x in ifs)),))))
+                if done and sub:
+                    out.extend(sub)
+                    continue
+        out.append((conds, leaf))
+    return out
+
+
 def _r4(ctx, pkg, rule="R4"):
     """What happens to self.reaction_list when the argument is a list of positions: every statement that can run in that
     scenario (guards and value-selecting conditions evaluated with `reaction` a non-empty list of ints, unknown tests left open)
@@ -537,7 +686,8 @@ def _r4(ctx, pkg, rule="R4"):
     from ..valueflow import _bool_atoms, guards_satisfiable, split_guard
     fn = pkg.method("Network", "remove_reaction")
     ctx.saw(NF, "Network.remove_reaction")
-    fl = Flow(fn, NF)
+    # type tests moved into a small predicate (a method of the class or a function of the module) are read through
+    fl = Flow(fn, NF, resolver=lambda name: pkg.resolve("Network", name)[1], func_resolver=lambda name: pkg.functions.get((NF, name)), raise_arms=True)
     RL = ("attr", SELF, "reaction_list")
     P = fn.args.args[1].arg if len(fn.args.args) > 1 else "reaction"
     R = ("param", P)
@@ -545,6 +695,44 @@ def _r4(ctx, pkg, rule="R4"):
     p_ = re.escape(P)
     SCEN = [(rf"^isinstance\({p_}, int\)$", False), (rf"^isinstance\({p_}, list\)$", True), (rf"^all\(\[isinstance\(\w+, int\) for \w+ in {p_}\]\)$", True),
             (rf"^isinstance\({p_}, Reaction\)$", False), (rf"^all\(\[isinstance\(\w+, Reaction\) for \w+ in {p_}\]\)$", False)]
+
+    undecided = []
+
+    # the scenario, evaluated on the IR: `reaction` is a non-empty list of ints
+    def scen_val(v):
+        while v[0] in ("ifexp", "phi") and len(v) == 4:
+            t = scen(v[1])
+            if t is None:
+                break
+            v = v[2] if t else v[3]
+        return v
+
+    def scen(c, ints=frozenset()):
+        c = simp(c)
+        if c[0] == "unop" and c[1] == "Not":
+            x = scen(c[2], ints)
+            return None if x is None else not x
+        if c[0] == "bool":
+            vals = [scen(x, ints) for x in c[2]]
+            if c[1] == "And":
+                return False if any(x is False for x in vals) else None if any(x is None for x in vals) else True
+            return True if any(x is True for x in vals) else None if any(x is None for x in vals) else False
+        if c[0] == "call" and c[1] == ("global", "isinstance") and len(c[2]) == 2 and not c[3]:
+            x, T = c[2]
+            types = list(T[1]) if T[0] == "tuple" else [T]
+            if not all(t[0] == "global" for t in types):
+                return None
+            names = {t[1] for t in types}
+            if scen_val(x) == R:
+                return "list" in names
+            if x in ints:
+                return "int" in names
+            return None
+        if c[0] == "call" and c[1] in (("global", "all"), ("global", "any")) and len(c[2]) == 1 and not c[3]:
+            comp = c[2][0]
+            if comp[0] == "comp" and len(comp[3]) == 1 and not comp[3][0][2] and comp[3][0][0] is not None and comp[3][0][0][0] == "bv" and scen_val(comp[3][0][1]) == R:
+                return scen(comp[2], ints | {comp[3][0][0]})        # over a non-empty list of ints, every element alike: the body for an int element
+        return None
 
     def reachable(guards):
         gs = []
@@ -555,43 +743,76 @@ def _r4(ctx, pkg, rule="R4"):
             _bool_atoms(c, atoms)
         extra = []
         for a_ in atoms:
-            for pat, val in SCEN:
+            hit = False
+            val = scen(a_)
+            if val is not None:
+                extra.append((a_, val))
+                hit = True
+            for pat, val in (SCEN if not hit else ()):
                 if re.search(pat, show(a_)):
                     extra.append((a_, val))
+                    hit = True
+            if not hit and any(x == R for x in walk(a_)):
+                undecided.append(a_)        # a test of the argument this rule cannot evaluate for a list of positions
         return guards_satisfiable(gs, extra)
 
     # everything that changes self.reaction_list, case by case
-    cases = []          # (kind, leaf | None, fact)
+    cases = []          # (kind, leaf | None, fact, every test of the argument on the way was evaluated)
     for f in fl.facts:
         if f.kind == "attrstore" and f.target == "reaction_list" and f.extra.get("obj") == SELF:
-            for conds, leaf in _flat_cases(simp(f.value)):
+            for conds, leaf in _pred_cases(simp(f.value)):
+                del undecided[:]
                 if reachable(tuple(f.guards) + conds):
-                    cases.append(("rebuild" if f.op == "=" else "inplace", leaf, f))
+                    cases.append(("rebuild" if f.op == "=" else "inplace", leaf, f, not undecided))
         elif f.kind == "call" and f.value is not None and f.value[0] == "meth" and simp(f.value[1]) == RL and f.target in ("pop", "remove", "clear", "insert", "append", "extend", "sort", "reverse"):
+            del undecided[:]
             if reachable(f.guards):
-                cases.append(("inplace", None, f))
+                cases.append(("inplace", None, f, not undecided))
         elif (f.kind == "delete" and f.target.replace(" ", "").startswith("self.reaction_list")) or (f.kind in ("store", "augstore") and f.target == "self.reaction_list"):
+            del undecided[:]
             if reachable(f.guards):
-                cases.append(("inplace", None, f))
+                cases.append(("inplace", None, f, not undecided))
     W = (NF, cases[0][2].line if cases else fn.lineno)
     inplace = [c for c in cases if c[0] == "inplace"]
     EXP = "[r for idx, r in enumerate(self.reaction_list) if idx not in reaction]"
     BADMSG = "the index-list branch does not rebuild the list from `idx not in reaction`: in-place deletion shifts positions / mishandles repeated indices"
     if inplace:
-        f = inplace[0][2]
-        ctx.bad(rule, K, (NF, f.line), BADMSG, expected=EXP, found="; ".join(f"{c[2].kind} {c[2].target}@{c[2].line}" for c in cases))
+        sure = [c for c in inplace if c[3]]
+        f = (sure or inplace)[0][2]
+        if sure:
+            ctx.bad(rule, K, (NF, f.line), BADMSG, expected=EXP, found="; ".join(f"{c[2].kind} {c[2].target}@{c[2].line}" for c in cases))
+        else:
+            # the branch is chosen by a test of the argument that was not evaluated: it may be the branch of another argument type
+            ctx.unrec(rule, K, (NF, f.line), "cannot tell whether the in-place change of self.reaction_list is reached for a list of positions (a test of the argument is not understood)")
         return
     if not cases:
         ctx.unrec(rule, K, W, "no statement that changes self.reaction_list for a list of positions was found")
         return
     verdicts = []
-    for _, v, f in cases:
+    for _, v, f, sure in cases:
         ok = wrong = False
         if v[0] == "comp" and len(v[3]) == 1:
             tg, it, ifs = v[3][0]
             ok = it == ("call", ("global", "enumerate"), (RL,), ()) and tg[0] == "tuple" and v[2] == tg[1][1] and tuple(ifs) == (("cmp", ("NotIn",), (tg[1][0], R)),)
             # a filter over the list itself with another test is understood -- and wrong (by value, by `idx in`, ...)
-            wrong = not ok and it in (RL, ("call", ("global", "enumerate"), (RL,), ()))
+            # (positive evidence only when the statement is known to run for a list of positions)
+            # positive evidence only when the statement is known to run for a list of positions and the filter is ONE comparison this
+            # rule reads: the ELEMENT compared with anything (removal by value: equal copies go too / nothing matches the integers),
+            # or the position tested with `in` / `==` (the listed ones are kept).  `idx not in <set / tuple / list view of the
+            # argument>` is the same selection as `idx not in reaction`.  A predicate that is called is not understood, not wrong.
+            over = it in (RL, ("call", ("global", "enumerate"), (RL,), ()))
+            elem_bv = tg if it == RL else tg[1][1] if tg[0] == "tuple" and len(tg[1]) == 2 else None
+            idx_bv = tg[1][0] if it != RL and tg[0] == "tuple" and len(tg[1]) == 2 else None
+            c = ifs[0] if len(ifs) == 1 else None
+            if not ok and over and c is not None and c[0] == "cmp" and len(c[1]) == 1 and v[2] == elem_bv:
+                op, (lhs, rhs) = c[1][0], c[2]
+                view = rhs[2][0] if rhs[0] == "call" and rhs[1] in (("global", "set"), ("global", "frozenset"), ("global", "tuple"), ("global", "list")) and len(rhs[2]) == 1 and not rhs[3] else rhs
+                if lhs == idx_bv and idx_bv is not None and op == "NotIn" and view == R:
+                    ok = True
+                elif sure and lhs == elem_bv and op in ("NotIn", "In", "NotEq", "Eq"):
+                    wrong = True
+                elif sure and lhs == idx_bv and idx_bv is not None and op in ("In", "Eq") and any(x == R for x in walk(rhs)):
+                    wrong = True
         verdicts.append((ok, wrong, v, f))
     if all(o for o, _, _, _ in verdicts):
         ctx.ok(rule, K, W, "exactly the reactions whose position is not listed survive (repeated indices are harmless)")
@@ -626,6 +847,95 @@ def _r5(ctx, pkg):
                       f"`{cls}.{m}` stores into the instance ({sorted(w) or decs}): a key computed once (e.g. while the reaction is still being parsed, or before an edit) is compared ever after",
                       expected="no write to self.* and no cache decorator", found=", ".join(sorted(w)) or ", ".join(decs))
     ctx.floor("R5", "comparison methods", n, 6)
+
+
+def _r7(ctx, pkg, rule="R7", consequence=None):
+    """(Shared with C17, which adopts it for the order of Network.species: `consequence` is what a tie means there.)
+    The string modes compare the formatted reactions, and `Reaction.__format__` makes that text independent of the order of
+    the reactants / products by listing the names in `sorted()` order -- the order `Species.__lt__` defines.  That text is canonical
+    only if two species with DIFFERENT names never tie (a tie keeps the input order: `H + #H` and `#H + H` format differently and
+    the permuted copy is entered as a new key).  Necessary and checked: the key `__lt__` compares contains the name itself, on
+    both sides, on every path (directly, as a component of a tuple, or through a property of the class that returns it)."""
+    SF = "naunet/species.py"
+    ci = pkg.cls("Species")
+    lt = ci.methods.get("__lt__")
+    K = "Species.__lt__:distinct names never tie"
+    if lt is None:
+        ctx.missing(rule, K, (SF, ci.node.lineno), "Species.__lt__ vanished (sorted() of species in Reaction.__format__ depends on it)")
+        return
+    ctx.saw(SF, "Species.__lt__")
+    rx = returned_bool(lt, lambda name: pkg.resolve("Species", name)[1])
+    args = [a.arg for a in lt.args.args]
+    cmp_ = None
+    if rx is not None and len(args) == 2:
+        leaves = [x for c in dnf(rx) for x in c]
+        cands = [x for x in leaves if isinstance(x, ast.Compare) and len(x.ops) == 1 and isinstance(x.ops[0], (ast.Lt, ast.Gt))]
+        rest = [x for x in leaves if x not in cands and not (isinstance(x, ast.Call) and ast.unparse(x.func) == "isinstance")]
+        if len(cands) == 1 and not rest and len(dnf(rx)) == 1:
+            cmp_ = cands[0]
+    if cmp_ is None:
+        ctx.unrec(rule, K, (SF, lt.lineno), f"the value __lt__ returns is not one `<` comparison of two keys: {ast.unparse(rx)[:100] if rx is not None else 'not understood'}")
+        return
+    props = {m: fn for m, fn in ci.methods.items() if isinstance(fn, ast.FunctionDef) and any(ast.unparse(d) in ("property", "functools.cached_property", "cached_property") for d in fn.decorator_list)}
+
+    def has_name(e, var, depth=0, fn=None):
+        """True: the species' name ITSELF is a component of the key `e` on every path;  False: on some path it is not (another
+        attribute, a constant, a value computed from the name that drops part of it);  None: not decided (the name under a wrapper
+        such as str(..) / .lower(), a helper this rule does not follow)"""
+        def every(vals):
+            return True if vals and all(v is True for v in vals) else None if any(v is None for v in vals) else False
+        if isinstance(e, ast.Constant):
+            return False
+        if isinstance(e, ast.Attribute) and isinstance(e.value, ast.Name) and e.value.id == var:
+            if e.attr == "name":
+                return True
+            if e.attr in props and depth < 4:
+                p_ = props[e.attr]
+                rets = [r.value for r in ast.walk(p_) if isinstance(r, ast.Return) and r.value is not None]
+                return every([has_name(r, p_.args.args[0].arg, depth + 1, p_) for r in rets]) if rets else None
+            return False if e.attr not in ci.methods else None
+        if isinstance(e, ast.Name) and fn is not None and e.id != var:
+            # a local of the property: every value it is bound to
+            vals = [n.value for n in ast.walk(fn) if isinstance(n, ast.Assign) and any(isinstance(t, ast.Name) and t.id == e.id for t in n.targets)]
+            other = [n for n in ast.walk(fn) if isinstance(n, ast.Name) and n.id == e.id and isinstance(n.ctx, ast.Store)]
+            if not vals or len(other) != len(vals) or depth > 6:
+                return None
+            return every([has_name(v, var, depth + 1, None if any(isinstance(x, ast.Name) and x.id == e.id for x in ast.walk(v)) else fn) for v in vals])
+        if isinstance(e, (ast.Tuple, ast.List)):
+            vals = [has_name(x, var, depth, fn) for x in e.elts]
+            return True if any(v is True for v in vals) else None if any(v is None for v in vals) else False
+        if isinstance(e, ast.IfExp):
+            return every([has_name(e.body, var, depth, fn), has_name(e.orelse, var, depth, fn)])
+        if isinstance(e, ast.Call):
+            # str(x.name), x.name.lower(): the name under a wrapper -- not decided;  anything else computed is not the name itself
+            direct = list(e.args) + ([e.func.value] if isinstance(e.func, ast.Attribute) else [])
+            if any(isinstance(a, ast.Attribute) and isinstance(a.value, ast.Name) and a.value.id == var and a.attr == "name" for a in direct):
+                return None
+            if isinstance(e.func, ast.Attribute) and isinstance(e.func.value, ast.Name) and e.func.value.id == var:
+                return None          # a helper method of the class: not followed
+            return False
+        if not any(isinstance(n, ast.Name) and n.id == var for n in ast.walk(e)):
+            return False
+        return None
+    l, r = cmp_.left, cmp_.comparators[0]
+    sides = {}
+    for e in (l, r):
+        names = {n.id for n in ast.walk(e) if isinstance(n, ast.Name)} & set(args)
+        if len(names) == 1:
+            sides[names.pop()] = e
+    if set(sides) != set(args):
+        ctx.unrec(rule, K, (SF, cmp_.lineno), f"the comparison does not have one key per operand: {ast.unparse(cmp_)[:100]}")
+        return
+    got = {v: has_name(e, v) for v, e in sides.items()}
+    found = " ".join(ast.unparse(cmp_).split())[:120]
+    if any(x is None for x in got.values()):
+        ctx.unrec(rule, K, (SF, cmp_.lineno), f"cannot tell whether the compared key contains the name: {found}")
+    else:
+        ok = all(got.values())
+        ctx.check(ok, rule, K, (SF, cmp_.lineno), "the order of species is decided by a key that contains the name: two species with different names never tie" if ok else
+                  "Species.__lt__ compares a key that does not contain the name: species with different names can tie (H / #H, #1H / #2H under basename and charge), sorted() "
+                  "then keeps their input order, " + (consequence or "`Reaction.__format__` prints permuted copies of a reaction differently and the string modes of find_duplicate_reaction miss them"),
+                  expected="self.name < o.name (or a tuple key with the name as a component)", found=found)
 
 
 def _r4_callers(ctx, pkg, rule="R4"):
@@ -855,4 +1165,32 @@ MUTANTS += [
     {"name": "sides-constant-one-side-only", "edits": [
         {"file": RF, "old": "    format = \"naunet\"\n", "new": "    format = \"naunet\"\n    _sides = (\"reactants\",)\n"},
         {"file": RF, "old": _RPEQ, "new": "        return all(Counter(getattr(self, side)) == Counter(getattr(o, side)) for side in self._sides)"}], "rules": ["R1"]},
+]
+
+_LT = "            return self.name < o.name\n"
+_KEYPROP = "    @property\n    def _sort_key(self):\n        return %s\n\n    def __repr__(self) -> str:\n"
+MUTANTS += [
+    {"name": "species-ordered-by-basename-and-charge", "file": "naunet/species.py", "old": _LT, "new": "            return (self.basename, self.charge) < (o.basename, o.charge)\n", "rules": ["R7"]},
+    {"name": "species-ordered-by-key-property-without-name", "edits": [
+        {"file": "naunet/species.py", "old": _LT, "new": "            return self._sort_key < o._sort_key\n"},
+        {"file": "naunet/species.py", "old": "    def __repr__(self) -> str:\n", "new": _KEYPROP % "(\"e\", -1) if self.is_electron else (self.basename, self.charge)"}], "rules": ["R7"]},
+]
+BENIGN += [
+    {"name": "species-ordered-by-tuple-key-with-name", "file": "naunet/species.py", "old": _LT, "new": "            return (self.name, self.charge) < (o.name, o.charge)\n"},
+    {"name": "species-ordered-by-key-property-returning-name", "edits": [
+        {"file": "naunet/species.py", "old": _LT, "new": "            return self._sort_key < o._sort_key\n"},
+        {"file": "naunet/species.py", "old": "    def __repr__(self) -> str:\n", "new": _KEYPROP % "self.name"}]},
+    {"name": "species-lt-guard-clause", "file": "naunet/species.py", "old": "        if isinstance(o, Species):\n            return self.name < o.name\n        return NotImplemented\n",
+     "new": "        if not isinstance(o, Species):\n            return NotImplemented\n        return o.name > self.name\n"},
+]
+MUTANTS += [
+    # the positions resolved to objects first, then removal by value: every reaction EQUAL to a listed one goes too
+    {"name": "removal-of-the-objects-at-the-positions", "file": NF, "old": _RM,
+     "new": "        elif isinstance(reaction, list) and all(isinstance(r, int) for r in reaction):\n            gone = [self.reaction_list[i] for i in reaction]\n"
+            "            self.reaction_list = [r for r in self.reaction_list if r not in gone]\n", "rules": ["R4"]},
+]
+BENIGN += [
+    {"name": "removal-by-position-through-a-set", "file": NF, "old": _RM,
+     "new": "        elif isinstance(reaction, list) and all(isinstance(r, int) for r in reaction):\n"
+            "            self.reaction_list = [r for i, r in enumerate(self.reaction_list) if i not in set(reaction)]\n"},
 ]
